@@ -2,9 +2,12 @@ import MypyVerif.Model.Reach
 /-!
 Line-protocol driver for the reachability model (model file only).
 
-  <platform> <always_true,…|-> <always_false,…|-> | <target> … | <name>=<1|0|x> … | <k>=<1|0|x> … | <cond>
+  <platform> <always_true,…|-> <always_false,…|-> | <cond> | <entry> ; <entry> ; …
+      entry  = <target> ~ <name>=<1|0|x> … ~ <k>=<1|0|x> … ~ <k>=<1|0|x> …
+               (run-time truth of the names and of the opaque leaves; last: the opaque leaves when evaluated
+                with TYPE_CHECKING = MYPY = True; x = evaluating it raises)
       target = <major>.<minor>.<micro>.<releaselevel>.<serial>
-      cond   = cmp <operand> <op> <operand> | call <operand> <meth> <operand> | name <ident> | opq <k>
+      cond   = cmp <operand> <op> <operand> | call <operand> <meth> <operand> | callkw … | name <ident> | opq <k>
              | not <cond> | and <cond> <cond> | or <cond> <cond>            (prefix notation)
       operand = vi | idx <lit> | sl <lit|_> <lit|_> <n|_> | plat | lit <lit> | tup <n> <lit>×n | str <s|%>
       lit    = i<n> (IntExpr n) | n<n> (unary minus applied to IntExpr n);   op = eq ne lt le gt ge
@@ -57,6 +60,7 @@ partial def pCond : P Cond := do
   match (← tok) with
   | "cmp" => do let l ← pOperand; let o ← pOp; let r ← pOperand; pure (.cmp l o r)
   | "call" => do let r ← pOperand; let m ← tok; let a ← pOperand; pure (.call r m a)
+  | "callkw" => do let r ← pOperand; let m ← tok; let a ← pOperand; pure (.callKw r m a)
   | "name" => .name <$> tok
   | "opq" => do let k ← (← tok).toNat?; pure (.opaque k)
   | "not" => .not <$> pCond
@@ -84,23 +88,28 @@ def showRt : Option Bool → String
 
 def step (line : String) : String :=
   match line.splitOn "|" with
-  | [opts, targets, names, opqs, cond] =>
+  | [opts, cond, entries] =>
     match words opts, (pCond.run (words cond)) with
     | [plat, atr, afa], some (c, []) =>
-      let nm := parseBoolMap names
-      let oq := parseBoolMap opqs
-      let res := (words targets).map fun t =>
-        match t.splitOn "." with
-        | [ma, mi, mc, lv, se] =>
-          match ma.toNat?, mi.toNat?, mc.toNat?, se.toNat? with
-          | some ma, some mi, some mc, some se =>
-            let o : Options := { major := ma, minor := mi, platform := if plat == "%" then "" else plat,
-                                 alwaysTrue := csv atr, alwaysFalse := csv afa }
-            let env : Env := { versionInfo := [.int ma, .int mi, .int mc, .str lv, .int se], platform := o.platform,
-                               names := fun n => (nm.lookup n).join, opq := fun k => (oq.lookup (toString k)).join }
-            s!"{showTV (infer o c)}/{showRt (eval env c)}/{showRt (eval (mtEnv env) c)}"
-          | _, _, _, _ => "bad-target"
-        | _ => "bad-target"
+      let res := (entries.splitOn ";").map fun e =>
+        match e.splitOn "~" with
+        | [t, names, opqRt, opqMt] =>
+          match t.trimAscii.toString.splitOn "." with
+          | [ma, mi, mc, lv, se] =>
+            match ma.toNat?, mi.toNat?, mc.toNat?, se.toNat? with
+            | some ma, some mi, some mc, some se =>
+              let nm := parseBoolMap names
+              let oq := parseBoolMap opqRt
+              let oq2 := parseBoolMap opqMt
+              let o : Options := { major := ma, minor := mi, platform := if plat == "%" then "" else plat,
+                                   alwaysTrue := csv atr, alwaysFalse := csv afa }
+              let env : Env := { versionInfo := [.int ma, .int mi, .int mc, .str lv, .int se], platform := o.platform,
+                                 names := fun n => (nm.lookup n).join, opq := fun k => (oq.lookup (toString k)).join }
+              let env2 : Env := { env with opq := fun k => (oq2.lookup (toString k)).join }
+              s!"{showTV (infer o c)}/{showRt (eval env c)}/{showRt (eval (mtEnv env2) c)}"
+            | _, _, _, _ => "bad-target"
+          | _ => "bad-target"
+        | _ => "bad-entry"
       ";".intercalate res
     | _, _ => "bad-cond"
   | _ => "bad-line"
